@@ -570,6 +570,10 @@ TESTS = [
                      "fail:xonly_tweak_add:t>=n", "fail:keypair_xonly_tweak_add:result0", "fail:keypair_xonly_tweak_add:t>=n", "fail:keypair_result0_odd",
                      "xonly_ok_par1", "keypair_ok_par1", "keypair_ok_par0", "invalid_key:zero", "invalid_key:n", "check:flip_parity:0",
                      "check:other_tweak:0", "result_pm1", "op:negate", "op:to_xonly", "op:keypair_create", "taptweak"]),
+    # alternative limb configurations (10x26 field / 8x32 scalar, int128 struct) in the quick tier as well
+    Test("history_cfg", history_case, run_history, quick=700, thorough=6000, max_workers=3,
+         cfgs={"quick": ["int64", "struct"], "thorough": ["int64", "struct", "noasm"]},
+         must_cover=["fail:tweak_add:result0", "fail:xonly_tweak_add:result0", "op:negate", "taptweak"]),
     Test("combine", combine_case, run_combine, quick=1500, thorough=50000, max_workers=4,
          must_cover=["sum_infinity", "sum_ok", "prefix_infinity", "duplicate", "cancelling_pair", "n:41-200", "n:1", "secret_sum_checked"]),
     Test("sort", sort_case, run_sort, quick=1500, thorough=50000, max_workers=4,
